@@ -65,3 +65,11 @@ def run_mq(run, exe, trace_cfg="TraceMessageQ.cfg", trace_mod="TraceMessageQ", c
 def run(run):
     exe = build_vrt(run, "mq_drv", "mq_drv.c", ["librfn/messageq.c"])
     run_mq(run, exe)
+    # release-style build (NDEBUG, unsigned char, -O2): random schedules again
+    exe2 = build_vrt(run, "mq_drv_alt", "mq_drv.c", ["librfn/messageq.c"], extra_flags=ALT_FLAGS)
+    n = 1500 if run.thorough() else 300
+    gen = "".join("Gen %d %d %d %d %d %d\n" % (run.seed * 100 + 50 + i, n, d, s, m, irq)
+                  for i, (d, s, m, irq) in enumerate([(2, 4, 3, 0), (3, 4, 3, 1), (8, 6, 2, 0), (1, 3, 3, 0)]))
+    gen += "Cycle 3 300\nStarve 16 12\n"
+    tr = exec_script(run, exe2, [], gen, run.path("alt-random.ndjson"), "release-build-schedules")
+    check_trace(run, "release-build-schedules", "TraceMessageQ", "TraceMessageQ.cfg", tr, loose=LOOSE)
